@@ -7,7 +7,7 @@ from haiway import MISSING, asynchronous, cache, ctx, retry, throttle, timeout, 
 from harness import interp
 from harness.interp import Base, Err, World
 from harness.legs import cfg_text, leg_m, leg_mutant, leg_r
-from harness.vloop import Falsy
+from harness.vloop import Falsy, elder_loop
 
 SPEC = "Wrappers"
 MANIFEST = dict(
@@ -47,6 +47,7 @@ class WrappersDriver:
         self.pool = None
         self.traced_obs = ("none", "none", "none")
         self.warm = None
+        self.first_use = None
         self.wrong_receiver = False
         self.VAL, self.ERR, self.BASE = Falsy("value"), Err("fn failed"), Base("fn base")
         self.AW = self.w.loop.create_future()      # an awaitable object returned as a plain value
@@ -64,7 +65,8 @@ class WrappersDriver:
         ok = (a, b, tuple(args), dict(kwargs)) == EXPECT[self.s["sig"]]
         label = w.metrics_label() if self.s["kind"].startswith("traced") else None
         self.inside = (w.lookup("A"), "on_loop" if on_loop else "off_loop",
-                       "wrong receiver" if self.wrong_receiver else "args_ok" if ok else f"args {a, b, args, kwargs}")
+                       self.first_use or ("wrong receiver" if self.wrong_receiver else "args_ok" if ok
+                                          else f"args {a, b, args, kwargs}"))
         self.label_seen = label
         if self.s["sets"]:
             ctx.updated(interp.A(v=9)).__enter__()  # changes only the function's own (copied) context
@@ -85,6 +87,9 @@ class WrappersDriver:
 
         def fn(a, b=2, *args, **kwargs):
             """documented"""
+            if drv.warm is not None:        # the first use of the wrapper (on another loop)
+                drv.warm.append("fn")
+                return "warm"
             return drv._body(a, b, args, kwargs, threaded)
 
         async def afn(a, b=2, *args, **kwargs):
@@ -182,22 +187,26 @@ class WrappersDriver:
                 except BaseException as e:  # noqa: BLE001
                     drv.result = ("exc", e)
 
-            if self.s["kind"] == "asynchronous_method":
-                # first use: the same method through the other, equal receiver (runs on the executor, returns at once)
+            if self.s["kind"].startswith("asynchronous"):
+                # first use of the wrapper: on ANOTHER event loop (one that stays open), and for a method through the
+                # other, equal receiver; it runs on the executor and returns at once
+                method = self.s["kind"] == "asynchronous_method"
                 self.warm = []
+                target = self.warm_method if method else wrapped
 
                 async def first():
-                    r = await self.warm_method(*cargs, **ckw)
+                    r = await target(*cargs, **ckw)
                     drv.warm.append(r)
 
-                w.do("1", "call", first)
+                elder = elder_loop()
+                t = elder.create_task(first())
                 for _ in range(60000):
-                    w.loop.quiesce()
-                    if w.status("1") != "busy":
+                    elder.quiesce()
+                    if t.done():
                         break
                     real_wait(0.001)
-                if self.warm != [self.first_holder, "warm"]:
-                    self.wrong_receiver = True
+                if self.warm != [self.first_holder if method else "fn", "warm"]:
+                    self.first_use = f"first use of the wrapper failed: {self.warm!r} {t!r}"[:200]
                 self.warm = None
             w.do("1", "call", run)
             if self.s["kind"].startswith("asynchronous"):
